@@ -328,6 +328,17 @@ def select(t: T, assign: Callable[[T], Optional[bool]]) -> T:
     return t
 
 
+def deep_select(t: T, assign: Callable[[T], Optional[bool]]) -> T:
+    """like `select`, for conditionals at any depth of the value"""
+    def rw(x: T):
+        if x.op == "ite":
+            c = fold(x.args[0], assign)
+            if c is not None:
+                return x.args[1] if c else x.args[2]
+        return None
+    return t.map(rw)
+
+
 def _free_atoms(formula: T, assign, out: list) -> None:
     if is_const(formula) or assign(formula) is not None:
         return
